@@ -35,7 +35,8 @@ GStep == /\ ~done /\ Len(curve) < MaxLen
          /\ UNCHANGED done
 
 GStepR == /\ ~done /\ Len(curve) < MaxLen
-          /\ LET g == RandomElement(Gaps) v == RandomElement(Values) IN AddPoint(Now + g, v)
+          \* draws bound through singleton sets (notes/HOWTO.md "TLC pitfalls")
+          /\ \E g \in {RandomElement(Gaps)}, v \in {RandomElement(Values)} : AddPoint(Now + g, v)
           /\ hist' = Append(hist, StepJ(curve'))
           /\ UNCHANGED done
 
